@@ -1,0 +1,11 @@
+//go:build verif
+
+package message
+
+import "sync/atomic"
+
+// VerifPacketIDCounter returns the process-wide packet ID counter.
+func VerifPacketIDCounter() uint64 { return atomic.LoadUint64(&gPacketID) }
+
+// VerifSetPacketIDCounter sets the process-wide packet ID counter.
+func VerifSetPacketIDCounter(v uint64) { atomic.StoreUint64(&gPacketID, v) }
